@@ -291,3 +291,42 @@ example : secret_leaves_masked
       simp [Field.render, Field.render.renderList, Leaf.render, mask] at h := rfl
 
 end AM.Config
+
+namespace AM.Config
+
+/-! ### print → load -/
+
+mutual
+theorem printLoad_id : ∀ r : Route, r.all (fun n => n.groupBy ≠ some []) = true → printLoad r = r
+  | .mk n cs, h => by
+    unfold Route.all at h
+    simp only [Bool.and_eq_true] at h
+    unfold printLoad
+    have hn : printNode n = n := by
+      unfold printNode
+      have : n.groupBy ≠ some [] := by simpa using h.1
+      simp [this]
+    rw [hn, printLoadList_id cs h.2]
+theorem printLoadList_id : ∀ rs : List Route, Route.all.allList (fun n => n.groupBy ≠ some []) rs = true →
+    printLoad.printLoadList rs = rs
+  | [], _ => by unfold printLoad.printLoadList; rfl
+  | r :: rs, h => by
+    unfold Route.all.allList at h
+    simp only [Bool.and_eq_true] at h
+    unfold printLoad.printLoadList
+    rw [printLoad_id r h.1, printLoadList_id rs h.2]
+end
+
+/-- **print_load_stable_partial.**  The routing tree survives `Config.String()` followed
+    by `Load` — provided no route carries an explicit empty `group_by` (finding F8). -/
+theorem print_load_stable_partial (r : Route) (h : r.all (fun n => n.groupBy ≠ some []) = true) :
+    printLoad r = r := printLoad_id r h
+
+/-- **The full-strength statement is false of the code as it is (F8):** a child that
+    overrides its parent's grouping with `group_by: []` reads back without the override. -/
+theorem print_load_loses_empty_group_by :
+    (printLoad (.mk { receiver := "a", groupBy := some ["alertname", "cluster"] }
+        [.mk { nMatchers := 1, groupBy := some [] } []])).children.map (·.node.groupBy) = [none] := by
+  decide
+
+end AM.Config
